@@ -208,7 +208,7 @@ namespace OpenMEEG {
     }
 
     inline Matrix Matrix::submat(const Index istart,const Index isize,const Index jstart,const Index jsize) const {
-        om_assert(istart+isize<=nlin() && jstart+jsize<=ncol());
+        om_assert(istart<=nlin() && isize<=nlin()-istart && jstart<=ncol() && jsize<=ncol()-jstart);
 
         Matrix res(isize,jsize);
 
@@ -225,7 +225,7 @@ namespace OpenMEEG {
     }
 
     inline void Matrix::insertmat(const Index istart,const Index jstart,const Matrix& B) {
-        om_assert(istart+B.nlin()<=nlin() && jstart+B.ncol()<=ncol() );
+        om_assert(istart<=nlin() && B.nlin()<=nlin()-istart && jstart<=ncol() && B.ncol()<=ncol()-jstart);
 
         for (Index j=0; j<B.ncol(); ++j)
             for (Index i=0; i<B.nlin(); ++i)
